@@ -105,6 +105,11 @@ pub fn run_import(cfg: &config::ConfigEntry, fmt: Format, src: &str) -> Imported
 /// with what the library path above printed: `same`, `diff:<enc of the command's output or error>`, or `n/a` (scratch files could not
 /// be written).  Both failing counts as `same`.
 pub fn cmd_check(yaml: &str, src: &str, ext: &str, printed: Option<&str>) -> String {
+    cmd_check_named(yaml, src, &format!("statement.{}", ext), printed)
+}
+
+/// the same with the statement's file name given (the configuration's `path` must match it)
+pub fn cmd_check_named(yaml: &str, src: &str, fname: &str, printed: Option<&str>) -> String {
     let dir = std::env::temp_dir().join(format!("okane-verif-impcmd-{}", std::process::id()));
     if std::fs::create_dir_all(&dir).is_err() {
         return "n/a".to_string();
@@ -123,7 +128,7 @@ pub fn cmd_check(yaml: &str, src: &str, ext: &str, printed: Option<&str>) -> Str
     let linked = std::os::unix::fs::symlink("decoy-dir-zzz", dir.join("via")).is_ok();
     #[cfg(not(unix))]
     let linked = false;
-    let src_path = if linked { dir.join("via").join(format!("statement.{}", ext)) } else { dir.join(format!("statement.{}", ext)) };
+    let src_path = if linked { dir.join("via").join(fname) } else { dir.join(fname) };
     let yaml2 = if linked {
         format!("{}{}---\npath: decoy-dir-zzz/\naccount: Decoy:Selected By Canonical Path\n", yaml, if yaml.ends_with('\n') { "" } else { "\n" })
     } else {
